@@ -185,6 +185,27 @@ func GenWorld(rng *rand.Rand, o WorldOpts) *World {
 				names = append(names, join("b", join("a*b", wbase)))
 			}
 		}
+		// a deep and long owner name (many labels, one 63-byte label) with a wildcard above it: the key arithmetic
+		// of the sorted layout works on byte offsets into the reversed name
+		if rng.Intn(4) == 0 {
+			deep := z
+			nl := 8 + rng.Intn(25)
+			for d := 0; d < nl && len(deep) < 150; d++ {
+				deep = join(SafeLabels[rng.Intn(len(SafeLabels))], deep)
+				if d == nl/2 && rng.Intn(2) == 0 {
+					b.txtLine(deep, true, locOf()) // wildcard half-way down
+					addOwner(deep)
+				}
+			}
+			if rng.Intn(2) == 0 {
+				deep = join(strings.Repeat("l", 63), deep)
+			}
+			b.addrLine(deep, false, locOf(), b.randIP(), 0)
+			if rng.Intn(2) == 0 {
+				b.txtLine(deep, false, locOf())
+			}
+			addOwner(deep)
+		}
 		// zone-wide wildcard at the apex
 		if rng.Intn(3) == 0 {
 			b.addrLine(z, true, locOf(), b.randIP(), 0)
@@ -442,8 +463,13 @@ func (w *World) Queries(rng *rand.Rand, max int) []Query {
 	nameSet := map[string]bool{}
 	var names []string
 	add := func(n string) {
-		if len(n) > 200 {
+		if len(n)+2 > 255 { // wire length = presentation length + 2 for our dot-free labels
 			return
+		}
+		for _, l := range strings.Split(n, ".") {
+			if len(l) > 63 {
+				return
+			}
 		}
 		if !nameSet[n] {
 			nameSet[n] = true
